@@ -98,6 +98,11 @@ def gen_geometry(rng, spec):
     if kind == 'all_but_one' and len(real) >= 3:
         # everything except one cell (often an interior one): a ring-like selection that drops a cell but few edges / nodes
         skip = rng.randrange(len(real))
+        if rng.random() < 0.7:
+            # prefer the most central cell: the one most likely to be interior (all its edges shared with kept cells)
+            cx = sum(u[0] for u in real) / len(real)
+            cy = sum(u[1] for u in real) / len(real)
+            skip = min(range(len(real)), key=lambda k_: (real[k_][0] - cx) ** 2 + (real[k_][1] - cy) ** 2)
         parts = [u for k_, u in enumerate(real) if k_ != skip]
         r = 0.01
         return {'kind': kind, 'wkt': 'MULTIPOLYGON (' + ', '.join(
